@@ -10,6 +10,8 @@
 //   waitLoops     for every Wait() call: function, receiver field, innermost enclosing for/if
 //   gateArg       the argument of newGate(...) in Run
 //   statusConsts  the status constants in iota order
+//   clientCalls   how the real client uses the runner: runTarget.Evaluate (target.go) calls EvaluateTargets once, with
+//                 its dependency list, and fails on any result error; Project.Run (project.go) calls runner.Run once
 package main
 
 import (
@@ -369,4 +371,88 @@ func main() {
 		}
 	}
 	o.Def("statusConsts", "List String", leanList(consts))
+
+	// 6. the client's use of the runner
+	var client []string
+	countCalls := func(rel, fn, sel string) {
+		cf, err := lib.Parse(*repo, rel)
+		if err != nil {
+			o.Fail("parse %s: %v", rel, err)
+			return
+		}
+		fd := cf.Func(fn)
+		if fd == nil || fd.Body == nil {
+			o.Fail("func %s not found in %s", fn, rel)
+			return
+		}
+		n, inLoop, variadic := 0, false, false
+		var stack []ast.Node
+		ast.Inspect(fd.Body, func(x ast.Node) bool {
+			if x == nil {
+				stack = stack[:len(stack)-1]
+				return true
+			}
+			stack = append(stack, x)
+			if call, ok := x.(*ast.CallExpr); ok {
+				if se, ok := call.Fun.(*ast.SelectorExpr); ok && se.Sel.Name == sel {
+					n++
+					variadic = call.Ellipsis.IsValid()
+					for _, a := range stack[:len(stack)-1] {
+						switch l := a.(type) {
+						case *ast.ForStmt:
+							inLoop = true
+						case *ast.RangeStmt:
+							// `for … := range engine.EvaluateTargets(deps...)` evaluates the call once
+							if l.X != x {
+								inLoop = true
+							}
+						}
+					}
+				}
+			}
+			return true
+		})
+		client = append(client, fmt.Sprintf("%s:%s:%s:calls=%d:inLoop=%v:variadic=%v", rel, fn, sel, n, inLoop, variadic))
+	}
+	countCalls("target.go", "runTarget.Evaluate", "EvaluateTargets")
+	countCalls("project.go", "Project.Run", "Run")
+	o.Def("clientCalls", "List String", leanList(client))
+	// the dependency-error branch of runTarget.Evaluate: any result error fails the target
+	if cf, err := lib.Parse(*repo, "target.go"); err == nil {
+		if fd := cf.Func("runTarget.Evaluate"); fd != nil {
+			// only the loop over the results: `for i, dep := range engine.EvaluateTargets(deps...) { if dep.Error != nil { … return … } … }`
+			var loop ast.Stmt
+			for _, st := range fd.Body.List {
+				if rs, ok := st.(*ast.RangeStmt); ok && mentions(rs.X, "EvaluateTargets") {
+					loop = rs
+				}
+			}
+			if loop == nil {
+				o.Fail("runTarget.Evaluate: no `range engine.EvaluateTargets(...)` loop at top level")
+				o.Def("skel_client_Evaluate", "String", `""`)
+			} else {
+				frag := &ast.FuncDecl{Name: fd.Name, Type: &ast.FuncType{}, Body: &ast.BlockStmt{List: []ast.Stmt{loop}}}
+				o.Def("skel_client_Evaluate", "String", lib.LeanLongString(lib.NormFuncKeep(frag, func(s ast.Stmt) bool {
+					switch s := s.(type) {
+					case *ast.IfStmt:
+						return mentions(s.Cond, "Error")
+					case *ast.ReturnStmt, *ast.BranchStmt:
+						return true
+					}
+					return false
+				})))
+			}
+		}
+	}
+}
+
+func mentions(n ast.Node, name string) bool {
+	found := false
+	ast.Inspect(n, func(x ast.Node) bool {
+		if id, ok := x.(*ast.Ident); ok && id.Name == name {
+			found = true
+		}
+		return !found
+	})
+	return found
 }
